@@ -46,6 +46,7 @@ def competing_specs(tier):
                        {"name": "WP1", "cap": cap, "targets": [0, 1], "facilities": [{"name": "F1", "skills": dict(full)}]}]
                 teams = [{"name": "TM0", "targets": [0, 1], "workers": [{"name": "W%d" % i, "skills": dict(full), "fskills": {"F0": 1.0, "F1": 1.0}} for i in range(2)]}]
                 out.append({"tasks": tasks, "links": links, "components": comps, "workplaces": wps, "teams": teams})
+    out.extend(F.three_level_product_specs())
     # fixed facility IDs naming a facility of another workplace than the one the component is placed at
     for fixf in (["F2"], ["F1", "F2"], ["F0"]):
         for cap0, cap1 in ((1.0, 1.0), (2.0, 1.0), (1.0, 2.0)):
